@@ -63,18 +63,19 @@ SNRS = [None, 30]
 
 
 def lead_in(r, kind):
+    """lead-in segments and the LSFs of earlier transmissions they contain"""
     if kind == "none":
-        return []
+        return [], []
     if kind == "zeros":
-        return [f"seg zeros {r.range(1920, 24000)}"]
+        return [f"seg zeros {r.range(1920, 24000)}"], []
     if kind == "noise":
-        return [f"seg noise {r.range(1920, 72000)} {r.choice([1e-4, 1e-3, 1e-2, 0.1])} {r.choice(['g', 'u'])}"]
+        return [f"seg noise {r.range(1920, 72000)} {r.choice([1e-4, 1e-3, 1e-2, 0.1])} {r.choice(['g', 'u'])}"], []
     if kind == "prevtx":
         ptx = c03rig.make_tx(r, r.range(3, 25))
         gap = r.range(24000, 72000)
         return [f"seg noise {r.range(0, 3000)} 0.001 g",
                 c03rig.tx_seg(ptx, False, r.below(10) / 10, r.choice(PPMS), r.choice(GAINS), r.choice(DCS), 0.0),
-                r.choice([f"seg zeros {gap}", f"seg noise {gap} 0.001 g"])]
+                r.choice([f"seg zeros {gap}", f"seg noise {gap} 0.001 g"])], [ptx["lsf"]]
     raise ValueError(kind)
 
 
@@ -93,7 +94,8 @@ def gen_cases(ctx, n, lengths, trace_every=1):
                "snr": SNRS[k % 2] if k < 20 else r.choice(SNRS), "secs": secs, "frames": nfr,
                "lead": ["zeros", "noise", "none", "prevtx"][(k // 5) % 4] if k < 20 else r.choice(["zeros", "noise", "none", "prevtx"])}
         sig = c03rig.sigma_for_snr(par["gain"], par["snr"])
-        segs = lead_in(r, par["lead"])
+        segs, prev = lead_in(r, par["lead"])
+        par["earlier_lsfs"] = prev
         par["lead_segments"] = [s[:70] for s in segs]
         segs = segs + [c03rig.tx_seg(tx, True, par["tau"], par["ppm"], par["gain"], par["dc"], sig), "seg zeros 4800"]
         trace = (k % trace_every == 0)
@@ -117,6 +119,8 @@ def estimator_error(res, par, n):
 
 def classify(res, par, what, detail):
     """key of a C03 violation: the oracle's verdict plus, when the frame callback shows it, the mechanism"""
+    if what == "lsf-differs" and detail.get("lsf_reported") in par.get("earlier_lsfs", []):
+        return "lsf-of-previous-transmission"
     n = detail.get("at_sample")
     if what in ("frame-corrupt", "frame-lost", "frame-duplicated") and n is not None:
         e = estimator_error(res, par, n)
@@ -165,9 +169,9 @@ def run(ctx):
         return
     thorough = ctx.tier == "thorough"
     if thorough:
-        cases = gen_cases(ctx, 1200, [1, 2, 2, 3, 4, 6, 8, 12], trace_every=4)
+        cases = gen_cases(ctx, 1200, [1, 2, 2, 3, 4, 6, 8, 12, 2, 3, 4, 6], trace_every=4)
     else:
-        cases = gen_cases(ctx, 36, [2, 2, 2, 2, 2, 4, 2, 2, 1], trace_every=1)
+        cases = gen_cases(ctx, 36, [2, 2, 2, 2, 2, 4, 2, 2, 1, 2, 2, 3], trace_every=1)
     results = c03rig.run_cases(ctx, exe, getattr(ctx, "model", None), cases)
     check_traces(ctx, cases, results, "ctl-trace-inclusion")
     nsteady = 0
